@@ -3,16 +3,21 @@
    masks, independently of Model/Color.v. *)
 Require Import Model.Base Model.Orient Model.Dcs Model.Events Model.Builder Model.InitLang Model.Color Corr.Common Corr.Init.
 Require Import Oracle.Controller Oracle.InitSpec.
+Require Corr.C06 Corr.C07.
 Open Scope Z_scope.
 
 Inductive c5case :=
 | C5Color (fmt : Z) (w16 : bool) (count : Z) (raws : list Z)     (* fmt 0 = Rgb565, 1 = Rgb666 *)
 | C5Sum (fmt : Z) (w16 : bool) (lo hi : Z)
-| C5Init (pc : pcase).
+| C5Init (pc : pcase)
+| C5Spi (sc : Corr.C06.scase)        (* the encoded words through the real SPI transport: fill vs stream *)
+| C5Par (c : Corr.C07.parcase).      (* ... and through the real parallel transport *)
 Inductive c5out :=
 | C5Ev (l : list event)
 | C5Z (s : Z)
-| C5P (p : pout).
+| C5P (p : pout)
+| C5S (s : Corr.C06.sout)
+| C5Pa (o : Corr.C07.parout).
 
 Definition enc_model (fmt : Z) (w16 : bool) : Z -> list Z :=
   enc_of (if fmt =? 0 then CRgb565 else CRgb666) w16.
@@ -49,6 +54,8 @@ Definition model_c5 (c : c5case) : option c5out :=
   | C5Color fmt w16 count raws => Some (C5Ev (color_events (enc_model fmt w16) count raws))
   | C5Sum fmt w16 lo hi => Some (C5Z (color_sum (enc_model fmt w16) lo hi))
   | C5Init pc => option_map C5P (run_pcase pc)
+  | C5Spi sc => Some (C5S (Corr.C06.model_sout sc))
+  | C5Par c => Some (C5Pa (Corr.C07.model_parout c))
   end.
 
 Definition c5out_eqb (a b : c5out) : bool :=
@@ -56,6 +63,8 @@ Definition c5out_eqb (a b : c5out) : bool :=
   | C5Ev x, C5Ev y => events_eqb x y
   | C5Z x, C5Z y => x =? y
   | C5P x, C5P y => pout_eqb x y
+  | C5S x, C5S y => Corr.C06.sout_eqb x y
+  | C5Pa x, C5Pa y => Corr.C07.parout_eqb x y
   | _, _ => false
   end.
 
@@ -77,6 +86,8 @@ Definition oracle (c : c5case) (impl : c5out) : bool :=
   | C5Color fmt w16 count raws, C5Ev l => events_eqb l (color_events (spec_words fmt w16) count raws)
   | C5Sum fmt w16 lo hi, C5Z s => s =? color_sum (spec_words fmt w16) lo hi
   | C5Init pc, C5P p => colmod_judge pc p
+  | C5Spi sc, C5S so => Corr.C06.oracle sc so
+  | C5Par c, C5Pa o => Corr.C07.oracle c o
   | _, _ => false
   end.
 
